@@ -10,9 +10,11 @@ EXTENDS Naturals, Sequences, FiniteSets, TLC, Json, NdContract, MonotoneDefs
 CONSTANTS MaxLen, Rels, NaNMax
 
 VARIABLE w
-Words == UNION {[1..n -> Rels] : n \in 0..MaxLen}
 HasUN(x) == \E i \in 1..Len(x) : x[i] = "UN"
-Init == w \in {x \in Words : HasUN(x) => Len(x) <= NaNMax}
+\* NaN-free words up to MaxLen pairs; words with an unordered pair up to NaNMax pairs
+Words == UNION {[1..n -> Rels \ {"UN"}] : n \in 0..MaxLen}
+         \cup {x \in UNION {[1..n -> Rels] : n \in 1..NaNMax} : HasUN(x)}
+Init == w \in Words
 Next == UNCHANGED w
 Spec == Init /\ [][Next]_w
 
